@@ -494,6 +494,21 @@ func (i *Interpreter) injectDependency(injection Injection, env *Environment) {
 	}
 }
 
+// AnonymousAuthData is the value of `auth` in a route that declares auth when the
+// request carries no user data: a structure that lets auth.user.id etc. evaluate.
+// Both the interpreter and the compiled route handler bind it.
+func AnonymousAuthData() map[string]interface{} {
+	return map[string]interface{}{
+		"user": map[string]interface{}{
+			"id":       int64(0), // Would be extracted from JWT
+			"username": "",
+			"role":     "",
+		},
+		"token":     "",
+		"expiresAt": int64(0),
+	}
+}
+
 // ExecuteRoute executes a route with the given request
 func (i *Interpreter) ExecuteRoute(route *Route, request *Request) (*Response, error) {
 	// Create a new environment for the route
@@ -635,15 +650,7 @@ func (i *Interpreter) ExecuteRoute(route *Route, request *Request) (*Response, e
 	if route.Auth != nil {
 		// In a real implementation, this would be extracted from JWT validation
 		// For now, provide a structure that allows auth.user.id etc. to work
-		authData := map[string]interface{}{
-			"user": map[string]interface{}{
-				"id":       int64(0), // Would be extracted from JWT
-				"username": "",
-				"role":     "",
-			},
-			"token":     "",
-			"expiresAt": int64(0),
-		}
+		authData := AnonymousAuthData()
 		// If request has auth data attached, use it
 		if request.AuthData != nil {
 			authData = request.AuthData
